@@ -301,7 +301,7 @@ fn c20_needs_tick_is_earliest_peer_deadline() {
     // established peers report the earlier of their deadlines (real Connection::needs_tick)
     let id_a: u32 = 0;
     let id_b: u32 = 1;
-    let mut net = two_peers(kani::any(), id_a, id_b);
+    let mut net = two_peers(true, id_a, id_b);
     let ta: u64 = kani::any::<u64>() >> 1;
     let tb: u64 = kani::any::<u64>() >> 1;
     let b_online: bool = kani::any();
